@@ -3,6 +3,8 @@ package checks
 import (
 	"encoding/base64"
 	"fmt"
+	policyopts "github.com/gittuf/gittuf/internal/policy/options/policy"
+	"github.com/gittuf/gittuf/internal/tuf"
 	"os"
 	"sync/atomic"
 
@@ -51,3 +53,9 @@ func decodeB64(s string) string {
 	}
 	return string(b)
 }
+
+func removeAll(dir string) error { return os.RemoveAll(dir) }
+
+type tufPrincipal = tuf.Principal
+
+func bypassRSL() policyopts.LoadStateOption { return policyopts.BypassRSL() }
